@@ -281,7 +281,7 @@ def erase_plan(chk, r):
     # clean: every offset x size, canaries on both sides
     g = []
     for o in range(8):
-        for sz in list(range(0, 71)) + [255, 256, 257, 4096]:
+        for sz in list(range(0, 71)) + [255, 256, 257, 4096, 100000]:
             g.append(f"clean id=z{o}-{sz} size={sz} o={o} pl={'es'[(o + sz) % 2]}")
     G.append((0xAA, g))
     return G
